@@ -301,6 +301,8 @@ func (q *Seq) Exec(op SOp) bool {
 		// a further chunk of one of this session's progressive call invocations
 		var open []*MCall
 		for _, k := range m.Calls {
+			// (not for calls the callee has answered finally meanwhile: a caller that has its final
+			// reply sends no further chunk; what one would cause is not specified)
 			if !k.Done && k.Caller == idx && k.InProg && k.Callee >= 0 {
 				open = append(open, k)
 			}
@@ -347,9 +349,9 @@ func (q *Seq) Exec(op SOp) bool {
 	case "yield", "inverr":
 		sym, actual := q.pickInv(r, idx, op)
 		if k := m.callByInv(idx, sym); k != nil && k.InProg && !(op.Kind == "yield" && op.Prog) {
-			// a final answer while the caller is still sending chunks: what the following
-			// chunks then mean is not specified; a callee under test does not do it
-			return false
+			// a final answer while the caller is still sending chunks completes the call (the
+			// model's "limbo": no time-out, nothing to cancel; further chunks are left open)
+			c.Probe("final_answer_during_progressive_call_invocation")
 		}
 		var msg wamp.Message
 		opts := wamp.Dict{}
